@@ -102,6 +102,10 @@ def _propagate_constants(repo, ref_names):
             if isinstance(node, ast.Global):
                 for k in [k for k in cands if k[0] is None and k[1] in node.names]:
                     del cands[k]
+        class_names = {}     # class -> names bound in its body (a bare name in a class-level value refers to them; inside a method it must be qualified)
+        for node in ast.walk(m.tree):
+            if isinstance(node, ast.ClassDef):
+                class_names[node.name] = {t.id for st in node.body if isinstance(st, (ast.Assign, ast.AnnAssign)) for t in (st.targets if isinstance(st, ast.Assign) else [st.target]) if isinstance(t, ast.Name)}
         module_level = {k[1]: v for k, v in cands.items() if k[0] is None}
         class_level = {k: v for k, v in cands.items() if k[0] is not None}
 
@@ -138,7 +142,7 @@ def _propagate_constants(repo, ref_names):
                         owner = base
                     if owner is not None and (owner, node.attr) in class_level:
                         n += 1
-                        return ast.copy_location(_clone(class_level[(owner, node.attr)]), node)
+                        return ast.copy_location(_qualify(_clone(class_level[(owner, node.attr)]), owner, class_names.get(owner, ())), node)
                 return node
 
             def visit_Name(self, node):
@@ -149,6 +153,17 @@ def _propagate_constants(repo, ref_names):
                 return node
         m.tree = T().visit(m.tree)
     return n
+
+
+def _qualify(e, owner, names):
+    class Q(ast.NodeTransformer):
+        def visit_Name(self, node):
+            if isinstance(node.ctx, ast.Load) and node.id in names:
+                return ast.copy_location(ast.Attribute(value=ast.Name(id=owner, ctx=ast.Load()), attr=node.id, ctx=ast.Load()), node)
+            return node
+    e = Q().visit(e)
+    ast.fix_missing_locations(e)
+    return e
 
 
 def _display(e, depth=0):
